@@ -179,7 +179,7 @@ def run(ctx):
     # model does not build (another builder mid-edit) it is C08's failure, and part b is listed as
     # not checked in this run
     partb = "checked"
-    ok08, _ = common.build_lean(["SamVerif.Lemmas.Fmt"])
+    ok08, _ = common.build_lean(["SamVerif.Props.C13b"])
     if ok08:
         rb = common.audit("C13b")
         res["obligations"] += rb["obligations"]; res["discharged"] += rb["discharged"]
@@ -187,7 +187,13 @@ def run(ctx):
             ctx.violation("proof obligations of Props/C13b.lean no longer check: " + "; ".join(f"{n} ({w})" for n, w in rb["failed"][:4]),
                           {"broken_theorems": rb["failed"], "log": rb["log"][-3000:]}, no_input=True)
     else:
-        partb = "not checked in this run: SamVerif.Lemmas.Fmt (C08's parser model) does not build"
+        # Props/C13b imports only C08's Model/Fmt + Lemmas/Fmt and my generalisation of its ext_all
+        # lemma; a build failure there means that model is being edited (or has changed shape):
+        # reported by ./check C08, listed here as not checked (its obligations stay undischarged)
+        import re as _re
+        names = _re.findall(r"^#print axioms\s+(\S+)", open(os.path.join(common.LEAN, "SamVerif", "Audit", "C13b.lean")).read(), _re.M)
+        res["obligations"] += names
+        partb = "not checked in this run: SamVerif.Props.C13b (built on C08's parser model Model/Fmt.lean + Lemmas/Fmt.lean) does not build"
     rng = ctx.rng
     if not os.path.exists(common.harness_bin(PROP)) or not os.path.exists(common.driver_bin(PROP)):
         return ctx.finish(res, trusted=common.TRUSTED_COMMON)
